@@ -296,3 +296,193 @@ Theorem C09_liveness_oversized_report_refuted :
   (max < Z.of_N (size o))%Z -> Truncate.truncate size max pick o = Err.
 Proof. exact oversized_report_no_observation. Qed.
 Print Assumptions C09_liveness_oversized_report_refuted.
+
+(* ===================== System level: one whole cycle of one DON (Model/ExecSys.v, Proofs/ExecSysP.v) =====================
+   Vocabulary as in Props/C07.v (exec_round = Plugin.Outcome composed from the C07 / C08 models; quorum; sys_validated;
+   key_functional).  These theorems are about the rounds as the DON computes them from ANY validated observation lists
+   - i.e. including what up to f (or more) deviating oracles send - not about the destination model of ExecCycles. *)
+Require Import Verif.Model.Consensus Verif.Model.Merkle Verif.Model.ExecSys Verif.Proofs.ExecSysP.
+Require Verif.Model.ExecMerge.
+
+(* C09_cycle_no_reexecution.  C07_used_needs_quorum_cycle, clause (c), read for executed messages: in every cycle, a
+   sequence number s of chain k that EVERY commit report agreed in the GetCommitReports round (quorum f_j + 1 under some
+   chain key j) and covering s lists as executed is in no chain report of chain k of that cycle's execute report.
+   The executed list is part of a commit report's identity: "f+1 oracles observed s as executed" alone is not enough
+   when another version of the same report (without s) also reaches f_j + 1 reporters - possible with one lagging
+   honest reader plus one faulty oracle among four; then both versions are pending (on the real plugins the next
+   round then stalls: computeRanges calls the two versions overlapping, see the report of the execsys harness). *)
+Theorem C09_cycle_no_reexecution :
+  forall (hash : N -> N -> N) (zero : N) (leaf_hash : ExecReport.msg -> option N)
+         (enc_size : ExecReport.creport -> option N) (tree_gas : N -> N) (max_size max_gas : N)
+         (nonce_key : EM.nonce_t -> N) (sup : N -> list N) (bigF : Z) (dest : N) (fc1 fc2 fc3 : list (N * Z))
+         (prev o1 o2 o3 : outcome) (aos1 aos2 aos3 : list sao),
+  NoDup (map fst aos1) -> NoDup (map fst aos2) -> NoDup (map fst aos3) ->
+  sys_validated sup dest fc1 aos1 -> sys_validated sup dest fc2 aos2 -> sys_validated sup dest fc3 aos3 ->
+  key_functional aos1 -> key_functional aos2 ->
+  exec_round hash zero leaf_hash enc_size tree_gas max_size max_gas nonce_key bigF dest fc1 prev aos1 = Ok o1 ->
+  o_state o1 = 2 ->
+  exec_round hash zero leaf_hash enc_size tree_gas max_size max_gas nonce_key bigF dest fc2 o1 aos2 = Ok o2 ->
+  exec_round hash zero leaf_hash enc_size tree_gas max_size max_gas nonce_key bigF dest fc3 o2 aos3 = Ok o3 ->
+  forall k s : N,
+  (forall (x : xcommit) (j : N) (fj : Z),
+     In (j, fj) fc1 -> quorum (xcommits_of j) (f_plus_1 fj) aos1 x -> ExecReport.c_src (xc_cd x) = k ->
+     PS.in_range (ExecReport.c_start (xc_cd x)) (ExecReport.c_end (xc_cd x)) s = true ->
+     memN s (ExecReport.c_exec (xc_cd x)) = true) ->
+  forall (r : ExecReport.creport) (mm : ExecReport.msg),
+    In r (o_report o3) -> In mm (ExecReport.r_msgs r) -> ExecReport.r_src r = k -> ExecReport.m_seq mm <> s.
+Proof. exact cycle_no_reexecution. Qed.
+Print Assumptions C09_cycle_no_reexecution.
+
+(* C09_cycle_liveness: the liveness clause over one cycle.  Given a previous outcome from which a cycle starts and three
+   validated observation lists of distinct oracles (at least F each), a commit report x of chain k with messages ms, and
+   the message x0 = ms[i0]:
+     GetCommitReports round: x has a quorum of f_k + 1 reporters (under its own chain key) and carries no token data;
+     GetMessages round: every message of x's interval has a quorum of f_k + 1 reporters and NO OTHER message for a
+       sequence number of the interval has one (true whenever at most f_k observers deviate from the honest view:
+       a deviating message is reported by deviating oracles only); somebody files a token-data entry for every message;
+     x0 is eligible: not executed according to x; its token data T0 is ready, each slot with a quorum and no rival, and
+       NO observation files more slots for it than T0 has (the recorded exception F13e); fewer than f_dest + 1
+       oracles flag it too costly; out-of-order execution allowed (nonce 0: "nonce in order" holds trivially);
+       x is provable: its messages reproduce its root, at most 256 of them;
+     Filter round: every pending report of the GetMessages outcome is well formed - no messages yet, or its messages
+       reproduce its root and its token data list is as long as its message list (the exception is
+       C09_cycle_liveness_poisoned_refuted below; F13d is excluded by validation since its repair) - the report codec
+       does not fail, and the chain report of x's ready messages fits what the earlier reports leave of the size and gas
+       limits (the recorded exception F14: otherwise the greedy fallback may drop a message).
+   Then all three rounds succeed and x0 is in a chain report of chain k of the Filter round's execute report -
+   whatever else the (<= f per item) deviating oracles put into their observations.  F55 (no GetMessages observation at
+   all for an oversized report) is outside: the observation lists are inputs here. *)
+Theorem C09_cycle_liveness :
+  forall (hash : N -> N -> N) (zero : N) (leaf_hash : ExecReport.msg -> option N)
+         (enc_size : ExecReport.creport -> option N) (tree_gas : N -> N) (max_size max_gas : N)
+         (nonce_key : EM.nonce_t -> N),
+  (forall a b : N, hash a b = hash b a) ->
+  (forall r : ExecReport.creport, enc_size r <> None) ->
+  forall (sup : N -> list N) (bigF : Z) (dest : N) (fc1 fc2 fc3 : list (N * Z)) (prev : outcome)
+         (aos1 aos2 aos3 : list sao),
+  NoDup (map fst aos1) -> NoDup (map fst aos2) ->
+  sys_validated sup dest fc1 aos1 -> sys_validated sup dest fc2 aos2 -> sys_validated sup dest fc3 aos3 ->
+  key_functional aos1 -> key_functional aos2 ->
+  (bigF <= Z.of_nat (length aos1))%Z -> (bigF <= Z.of_nat (length aos2))%Z -> (bigF <= Z.of_nat (length aos3))%Z ->
+  o_state prev = 0 \/ o_state prev = 1 \/ o_state prev = 4 ->
+  forall (x : xcommit) (ms : list xmsg) (i0 : nat) (x0 : xmsg) (T0 : list EM.tok) (f1 f2 : Z) (t : Merkle.tree),
+  let cd0 := xc_cd x in
+  let k := ExecReport.c_src cd0 in
+  let lo := ExecReport.c_start cd0 in
+  let hi := ExecReport.c_end cd0 in
+  let m0 := xm_msg x0 in
+  In (k, f1) fc1 -> 0 < f_plus_1 f1 -> quorum (xcommits_of k) (f_plus_1 f1) aos1 x ->
+  ExecReport.c_td cd0 = [] ->
+  alookup k fc2 = Some f2 -> (forall f : Z, In (k, f) fc2 -> f = f2) -> 0 < f_plus_1 f2 ->
+  ms <> [] ->
+  map (fun y : xmsg => ExecReport.m_seq (xm_msg y)) ms = PS.nrange lo (length ms) ->
+  hi = lo + N.of_nat (length ms) - 1 ->
+  (forall y : xmsg, In y ms -> quorum (xmsgs_of k) (f_plus_1 f2) aos2 y) ->
+  (forall y : xmsg, quorum (xmsgs_of k) (f_plus_1 f2) aos2 y ->
+                    PS.in_range lo hi (ExecReport.m_seq (xm_msg y)) = true -> In y ms) ->
+  (forall s : N, PS.in_range lo hi s = true ->
+                 exists (o : N) (ob : sobs), In (o, ob) aos2 /\ In s (EM.keys (EM.entries k (so_tokens ob)))) ->
+  nth_error ms i0 = Some x0 ->
+  forallb EM.t_ready T0 = true ->
+  (forall (o : N) (ob : sobs), In (o, ob) aos2 ->
+     (length (EM.entries (ExecReport.m_seq m0) (EM.entries k (so_tokens ob))) <= length T0)%nat) ->
+  (forall (i : nat) (tk : EM.tok), nth_error T0 i = Some tk ->
+     quorum (xtok_of k (ExecReport.m_seq m0) i) (f_plus_1 f2) aos2 tk /\
+     (forall t' : EM.tok, quorum (xtok_of k (ExecReport.m_seq m0) i) (f_plus_1 f2) aos2 t' -> t' = tk)) ->
+  memN (ExecReport.m_seq m0) (ExecReport.c_exec cd0) = false ->
+  (forall rs : list N, NoDup rs -> rs <> [] ->
+     (forall o : N, In o rs -> exists ob : sobs, In (o, ob) aos2 /\ In (ExecReport.m_id m0) (so_costly ob)) ->
+     (Z.of_nat (length rs) < EM.f_dest dest fc2 + 1)%Z) ->
+  ExecReport.m_nonce m0 = 0 ->
+  (length ms <= 256)%nat ->
+  ExecReport.construct_tree hash zero leaf_hash
+    (ExecReport.mkCD k (ExecReport.c_root cd0) lo hi (ExecReport.c_exec cd0) (map xm_msg ms) [] []) = Ok t ->
+  Merkle.troot zero t = ExecReport.c_root cd0 ->
+  (forall o1 o2 : outcome,
+     exec_round hash zero leaf_hash enc_size tree_gas max_size max_gas nonce_key bigF dest fc1 prev aos1 = Ok o1 ->
+     exec_round hash zero leaf_hash enc_size tree_gas max_size max_gas nonce_key bigF dest fc2 o1 aos2 = Ok o2 ->
+     forall cd : ExecReport.cdata, In cd (o_pending o2) -> well_formed hash zero leaf_hash cd) ->
+  (forall (o1 o2 : outcome) (cd2 : ExecReport.cdata) (pre post : list ExecReport.cdata) (st : ExecReport.bstate)
+          (pend : list ExecReport.cdata),
+     exec_round hash zero leaf_hash enc_size tree_gas max_size max_gas nonce_key bigF dest fc1 prev aos1 = Ok o1 ->
+     exec_round hash zero leaf_hash enc_size tree_gas max_size max_gas nonce_key bigF dest fc2 o1 aos2 = Ok o2 ->
+     o_pending o2 = pre ++ cd2 :: post -> ExecReport.c_msgs cd2 = map xm_msg ms ->
+     ExecReport.c_root cd2 = ExecReport.c_root cd0 ->
+     let nonces := nonce_map nonce_key (EM.merge_nonces (EM.f_dest dest fc3) (to_aos aos3)) in
+     ExecReport.select_loop hash zero leaf_hash enc_size tree_gas nonces max_size max_gas ExecReport.b_init pre
+       = Ok (st, pend) ->
+     forall r : ExecReport.creport,
+       ExecReportP.report_for hash zero leaf_hash cd2 (ExecReport.ready_of nonces st cd2) r ->
+       exists sz : N, enc_size r = Some sz /\
+                      ExecReportP.fits max_size max_gas st sz (ExecReport.report_gas tree_gas r)) ->
+  exists (o1 o2 o3 : outcome) (r : ExecReport.creport),
+    exec_round hash zero leaf_hash enc_size tree_gas max_size max_gas nonce_key bigF dest fc1 prev aos1 = Ok o1 /\
+    exec_round hash zero leaf_hash enc_size tree_gas max_size max_gas nonce_key bigF dest fc2 o1 aos2 = Ok o2 /\
+    exec_round hash zero leaf_hash enc_size tree_gas max_size max_gas nonce_key bigF dest fc3 o2 aos3 = Ok o3 /\
+    In r (o_report o3) /\ ExecReport.r_src r = k /\ In m0 (ExecReport.r_msgs r).
+Proof. exact cycle_liveness. Qed.
+Print Assumptions C09_cycle_liveness.
+
+(* non-vacuity: on the concrete four-oracle cycle of Proofs/ExecSysP.v (module SysEx; oracle 3 deviates in every round)
+   EVERY hypothesis of C09_cycle_liveness holds for message 5 (the proof instantiates the theorem), so: *)
+Theorem C09_cycle_liveness_nonvacuous :
+  exists (o1 o2 o3 : outcome) (r : ExecReport.creport),
+    SysEx.Round 1 9 SysEx.fc out_init SysEx.aos1 = Ok o1 /\ SysEx.Round 1 9 SysEx.fc o1 SysEx.aos2 = Ok o2 /\
+    SysEx.Round 1 9 SysEx.fc o2 SysEx.aos3 = Ok o3 /\
+    In r (o_report o3) /\ ExecReport.r_src r = 1 /\ In SysEx.m1 (ExecReport.r_msgs r).
+Proof. exact SysLive.cycle_liveness_example. Qed.
+Print Assumptions C09_cycle_liveness_nonvacuous.
+
+(* The well-formedness hypothesis is needed, and <= F faulty oracles can break it (finding candidate; replay:
+   VERIF_XS_PROBE=poison / poison1 on the execsys harness).  Commit reports are destination data, but
+   mergeCommitObservations counts them at the f of the chain KEY they are filed under, ValidateObservation checks for
+   commit reports neither the observer's role (F07) nor that the key is the report's own source chain, and ONE pending
+   report that does not reproduce its root makes report.Builder.Add fail, and with it the Outcome of every oracle.
+   Witness: seven oracles, F = 2, f(chain 1) = f(destination) = 2, f(chain 2) = 1; five honest oracles with one view in
+   all three rounds; the two faulty ones - which do not even read chain 2 - file a forged commit report for chain 1
+   under the key of chain 2 in the first round and behave honestly afterwards.  The real report keeps its quorum and is
+   pending, but the forged one is pending too, gets the real messages attached, and the Filter round fails - in this
+   round and, since a failed round commits nothing, in every later one: execution to the destination stops for all
+   sources.  (SysPoison.poisoned_getmessages: on the real plugins the stall starts one round earlier, because the honest
+   GetMessages observation repeats both pending reports under one key and is refused by ValidateObservation.) *)
+Theorem C09_cycle_liveness_poisoned_refuted :
+  exists (sup : N -> list N) (bigF : Z) (dest : N) (fc : list (N * Z)) (aos1 aos2 aos3 : list sao) (o1 o2 : outcome)
+         (x : xcommit) (honest faulty : list N),
+    let Round := exec_round SysEx.h 999 SysEx.leaf SysEx.enc SysEx.tg 1000000 1000000 SysEx.nkey in
+    NoDup (map fst aos1) /\ NoDup (map fst aos2) /\ NoDup (map fst aos3) /\
+    sys_validated sup dest fc aos1 /\ sys_validated sup dest fc aos2 /\ sys_validated sup dest fc aos3 /\
+    key_functional aos1 /\ key_functional aos2 /\
+    (exists ob1 ob2 ob3, forall o, In o honest -> In (o, ob1) aos1 /\ In (o, ob2) aos2 /\ In (o, ob3) aos3) /\
+    map fst aos1 = honest ++ faulty /\
+    (Z.of_nat (length faulty) <= bigF)%Z /\
+    alookup (ExecReport.c_src (xc_cd x)) fc = Some bigF /\ alookup dest fc = Some bigF /\
+    quorum (xcommits_of (ExecReport.c_src (xc_cd x))) (f_plus_1 bigF) aos1 x /\
+    Round bigF dest fc out_init aos1 = Ok o1 /\ In (xc_cd x) (o_pending o1) /\
+    Round bigF dest fc o1 aos2 = Ok o2 /\
+    Round bigF dest fc o2 aos3 = Err /\
+    forall n, exec_run SysEx.h 999 SysEx.leaf SysEx.enc SysEx.tg 1000000 1000000 SysEx.nkey bigF dest o2
+                       (repeat (fc, aos3) n) = o2.
+Proof. exact cycle_liveness_poisoned_refuted. Qed.
+Print Assumptions C09_cycle_liveness_poisoned_refuted.
+
+(* histories: for every history of rounds in which a GetCommitReports round, a GetMessages round and a Filter round
+   succeed with any number of failed rounds in between (a failed Outcome commits nothing), the history ends in the Filter
+   round's outcome and the outcomes handed from round to round are exactly those three - so the cycle theorems
+   (C07_used_needs_quorum_cycle, C08_report_sound_cycle, C09_cycle_no_reexecution) apply to the report of every Filter
+   round of every history, whatever rounds came before *)
+Theorem C09_history_cycle :
+  forall (hash : N -> N -> N) (zero : N) (leaf_hash : ExecReport.msg -> option N)
+         (enc_size : ExecReport.creport -> option N) (tree_gas : N -> N) (max_size max_gas : N)
+         (nonce_key : EM.nonce_t -> N) (bigF : Z) (dest : N) (prev : outcome) (pre : list round_in)
+         (r1 : round_in) (mid1 : list round_in) (r2 : round_in) (mid2 : list round_in) (r3 : round_in)
+         (o1 o2 o3 : outcome),
+  let Round := exec_round hash zero leaf_hash enc_size tree_gas max_size max_gas nonce_key bigF dest in
+  let Run := exec_run hash zero leaf_hash enc_size tree_gas max_size max_gas nonce_key bigF dest in
+  let Fails := round_fails hash zero leaf_hash enc_size tree_gas max_size max_gas nonce_key bigF dest in
+  Round (fst r1) (Run prev pre) (snd r1) = Ok o1 -> Forall (Fails o1) mid1 ->
+  Round (fst r2) o1 (snd r2) = Ok o2 -> Forall (Fails o2) mid2 ->
+  Round (fst r3) o2 (snd r3) = Ok o3 ->
+  Run prev (pre ++ r1 :: mid1 ++ r2 :: mid2 ++ [r3]) = o3 /\
+  Run prev (pre ++ r1 :: mid1) = o1 /\ Run prev (pre ++ r1 :: mid1 ++ r2 :: mid2) = o2.
+Proof. exact history_cycle. Qed.
+Print Assumptions C09_history_cycle.
